@@ -570,14 +570,22 @@ def _double_minus(prog, rep, cfg):
             if not (v0 and v0[0] == "agg" and v0[2] == "UnaryOperator"):
                 continue
             total += 1
+            # constraints ever taken on this path (a re-assigned operand local loses its live constraint)
+            hd = dict(st.hist)
+            hd.update(st.disc)
+
+            class _H:
+                pass
+            live_disc = st.disc
+            st_disc = hd
             # is the operator known not to be Minus on this path?
             minus_possible = True
             unop_tested = False
-            for k, v in st.disc.items():
+            for k, v in st_disc.items():
                 if k.endswith("UnaryOperator.unop") or (k.startswith("call:") and "." not in k):
                     # a switch on an UnOp value (the original or the formatted one)
                     pass
-            for k, v in st.disc.items():
+            for k, v in st_disc.items():
                 enum_is_unop = False
                 # find enum of the key by looking at variants
                 if isinstance(v, str) and v in uv:
@@ -593,7 +601,7 @@ def _double_minus(prog, rep, cfg):
             if not minus_possible:
                 continue
             # the formatted operand's discriminant must have been examined
-            opkeys = [k for k, v in st.disc.items() if _is_expr_disc(prog, f, k)]
+            opkeys = [k for k, v in st_disc.items() if _is_expr_disc(prog, f, k)]
             operand_tested = bool(opkeys)
             if not (unop_tested and operand_tested):
                 bad_paths += 1
@@ -601,9 +609,9 @@ def _double_minus(prog, rep, cfg):
             # ... and when it does start with a minus (`-x` or `(-x)`), the operand handed to the new node must have
             # been re-wrapped in parentheses
             for k in opkeys:
-                lead_minus = (st.disc.get(k) == "UnaryOperator" and st.disc.get(k + ".UnaryOperator.unop") == "Minus") or \
-                             (st.disc.get(k) == "Parentheses" and st.disc.get(k + ".Parentheses.expression") == "UnaryOperator"
-                              and st.disc.get(k + ".Parentheses.expression.UnaryOperator.unop") == "Minus")
+                lead_minus = (st_disc.get(k) == "UnaryOperator" and st_disc.get(k + ".UnaryOperator.unop") == "Minus") or \
+                             (st_disc.get(k) == "Parentheses" and st_disc.get(k + ".Parentheses.expression") == "UnaryOperator"
+                              and st_disc.get(k + ".Parentheses.expression.UnaryOperator.unop") == "Minus")
                 if not lead_minus:
                     continue
                 kind, _, num = k.partition(":")
